@@ -63,6 +63,7 @@ const (
 	hostIn2      = "wiki.proxy.test"
 	hostOut      = "app.elsewhere.test"
 	rootDomain   = "proxy.test"
+	rxFrom       = `^(.*)\.rx\.proxy\.test$`
 	remoteAddr   = "192.0.2.7:4711"
 	googlePhrase = "Token expired or revoked"
 	oktaPhrase   = "The refresh token is invalid or expired."
@@ -284,6 +285,9 @@ func buildProxy(fa *c.FakeAuth, dir, slug string, secure bool) *proxyWorld {
 	for i, h := range []string{hostIn1, hostIn2, hostOut} {
 		yaml += fmt.Sprintf("- service: svc%d\n  default:\n    from: %s\n    to: %s\n    options:\n      allowed_email_domains: [\"*\"]\n", i, h, b.HostPort())
 	}
+	// a rewrite route: every Host matching the regular expression reaches this upstream, so that
+	// sign-out is exercised on Host values containing the bytes a Host header may carry
+	yaml += fmt.Sprintf("- service: rx\n  default:\n    from: %q\n    to: %s\n    type: rewrite\n    options:\n      allowed_email_domains: [\"*\"]\n", rxFrom, b.HostPort())
 	w, err := c.BuildProxy(c.ProxyOpts{YAML: yaml, DefaultSlug: slug, CookieSecure: secure, CookieName: proxyCookie,
 		Lifetime: cfgL * time.Second, Valid: cfgV * time.Second, Grace: cfgG * time.Second, Dir: dir}, fa)
 	c.Must(err)
@@ -690,6 +694,10 @@ func (e *env) sess(i int) asess {
 		Access: fmt.Sprintf("at-%d-%d", i, e.r.Intn(1000)), Refresh: fmt.Sprintf("rt-%d-%d", i, e.r.Intn(1000))}
 }
 
+// hosts of the rewrite route; every byte is one net/http accepts in a Host header ('%' is the only
+// one of them that URL.String escapes)
+var rxHosts = []string{"team.rx.proxy.test", "a%41b.rx.proxy.test", "x_y~z.rx.proxy.test", "a!b$c&d'e(f)g*h+i,j;k=l.rx.proxy.test", "100%.rx.proxy.test", "UPPER.rx.proxy.test"}
+
 var cookieKinds = []string{"sealed", "sealed", "sealed", "sealed", "expired", "none", "junk", "foreign", "truncated", "wrongname"}
 var ageLattice = []int64{0, 0, 0, 60, 180, 240, 360, 600, 86400, -60, -3600}
 
@@ -702,6 +710,9 @@ func (e *env) flow(i int) c.Case {
 	pw := e.pickProxy()
 	aw := e.pickAuth()
 	host := []string{hostIn1, hostIn1, hostIn2, hostOut}[r.Intn(4)]
+	if r.Chance(0.15) {
+		host = rxHosts[r.Intn(len(rxHosts))]
+	}
 	origin := !r.Chance(0.15)
 	method := "GET"
 	if r.Chance(0.1) {
@@ -946,8 +957,11 @@ func (e *env) corpus() []c.Case {
 	s := asess{Email: "alice@example.com", Access: "at-corpus", Refresh: "rt-corpus"}
 	for _, pw := range e.proxies {
 		for _, origin := range []bool{true, false} {
-			for _, host := range []string{hostIn1, hostOut} {
+			for _, host := range []string{hostIn1, hostOut, rxHosts[1], rxHosts[3]} {
 				for _, kind := range []string{"ok", "already", "other400", "503", "reset"} {
+					if strings.Contains(host, ".rx.") && kind != "ok" && kind != "503" {
+						continue
+					}
 					h := newHistory()
 					po := h.proxyStep(pw, host, origin, "GET", 2)
 					if !po.OK {
